@@ -33,8 +33,9 @@ SPEC = Spec(
         "a mutex critical section is one atomic transition: every shared field is accessed under mu and nothing inside a section of the "
         "repaired code can block (close(ch), sync.Cond.Signal/Broadcast, send on the fresh capacity-1 blockingDone.ch) - Go semantics, "
         "checked on the real code by the cond harness (oracle C02/cond/blocks-holding-lock)",
-        "sync.Cond (hasMoreElements) is over-approximated: a parked consumer may re-check whenever its predicate holds; the differential "
-        "picks the longest-waiting consumer (runtime notifyList order)",
+        "sync.Cond (hasMoreElements) is modelled exactly: no spurious wake-ups, Signal notifies the longest-parked consumer (runtime "
+        "notifyList order), a notified consumer re-evaluates Read; burst labels run under GOMAXPROCS(1) so that back-to-back Offers land "
+        "before a woken consumer runs",
         "sync.Pool reuse of blockingDone is modelled as fresh objects (results keyed by request id); cross-talk is searched by the "
         "oracle C02/queue/result-crosstalk on the real pool",
         "Go runtime: scheduler, sync.Mutex, channels, select, context; testing/synctest (go1.26) quiescence detection",
